@@ -588,6 +588,12 @@ def padval(ctx):
                 d = fa.single_def(op_place(ic[1]["args"][1])["l"]) if op_place(ic[1]["args"][1]) else None
                 if d and d[2] == "assign" and d[3]["k"] == "agg" and str(d[3].get("adt", "")).endswith("RangeTo"):
                     rng = root_local(fa, d[3]["ops"][0])
+            if ic and "split_at" in cname(ic[1]) and len(ic[1]["args"]) == 2:
+                # `let (row0, rest) = table.split_at_mut(width); row0.fill(..)`: the first half
+                half = _tuple_member(fa, t["args"][0])
+                if half == 0:
+                    filled.add(table_var(fa, ic[1]["args"][0]))
+                    rng = root_local(fa, ic[1]["args"][1])
             okr = okr and rng is not None and rng in widths
         ctx.ob("RESERVED0", "A|RawConnector::from_readers|row0-full-width", okr, fn_loc(crate, p),
                "the whole first row ([..feat_template_size], the width the other rows are chunked "
@@ -619,6 +625,24 @@ def padval(ctx):
             for b, t in calls_named(qa, "unwrap_or"):
                 uo.append((b, t))
                 vals.append(find_const_int(qa, t["args"][1]))
+            # `match row.get(idx) { Some(&id) => id, None => INVALID }` handed to push: the value
+            # has one definition per arm, and the constant one is what a missing position reads as
+            for b, t in calls_named(qa, "push"):
+                pl = op_place(t["args"][1]) if len(t["args"]) == 2 else None
+                for _ in range(4):
+                    d1 = qa.single_def(pl["l"]) if pl is not None and not pl["p"] else None
+                    if d1 and d1[2] == "assign" and d1[3]["k"] == "use" and op_place(d1[3]["op"]) is not None:
+                        pl = op_place(d1[3]["op"])
+                    else:
+                        break
+                ds = qa.defs().get(pl["l"], []) if pl is not None and not pl["p"] else []
+                if len(ds) < 2:
+                    continue
+                ks = [op_const(d[3]["op"]) for d in ds if d[2] == "assign" and d[3]["k"] == "use"]
+                ks = [k for k in ks if k is not None]
+                if ks and len(ks) < len(ds):
+                    uo.append((b, t))
+                    vals.extend(k.get("int") for k in ks)
         ok = len(uo) >= 1 and all(v == U31MAX for v in vals)
         ctx.ob("PADVAL", "A|DualConnector::%s|missing-feature-is-invalid" % fn, ok, fn_loc(crate, p),
                "a template position missing from a row reads as the invalid feature id" if ok else
@@ -631,6 +655,28 @@ def padval(ctx):
                "no feature id is defaulted (unwrap_or_default would yield id 0)" if not others else
                "a feature id is defaulted with unwrap_or_default/unwrap_or_else: id 0 is the empty "
                "feature, not 'no feature'")
+
+
+def _tuple_member(fa, op):
+    """k when the operand is (a copy of) member k of a tuple-valued call result, else None"""
+    pl = op_place(op)
+    for _ in range(8):
+        if pl is None:
+            return None
+        fields = [e for e in pl["p"] if e != "*"]
+        if fields:
+            e = fields[-1]
+            return e.get("f") if isinstance(e, dict) and len(fields) == 1 else None
+        d = fa.single_def(pl["l"])
+        if d is None or d[2] != "assign":
+            return None
+        if d[3]["k"] == "use":
+            pl = op_place(d[3]["op"])
+        elif d[3]["k"] == "ref":
+            pl = d[3]["place"]
+        else:
+            return None
+    return None
 
 
 def find_const_int(fa, op, depth=0):
@@ -1142,6 +1188,13 @@ def rawbuild(ctx):
         cur = op
         for _ in range(8):
             oo = fa.origin(cur)
+            if oo[0] == "place" and oo[1].root[0] == "call" and len(oo[1].proj) == 1:
+                # one half of `table.split_at_mut(w)`
+                ct = fa.term(oo[1].root[1])
+                if short(strip_generics(sorted(callee_paths(ct))[0])) in ("split_at_mut", "split_at") and ct["args"]:
+                    cur = ct["args"][0]
+                    continue
+                return None
             if oo[0] != "call":
                 return None
             nm = short(strip_generics(sorted(callee_paths(oo[2]))[0]))
